@@ -188,7 +188,7 @@ package server
 
 //@ func (*Server).periodicBackup(s, ctx)
 //@   requires s != nil && dbInv(s.db) && s.backupClient != nil && ctx != nil
-//@   interference at WriteGen, doBackup writers (*db.DB).Put, (*db.DB).Activate, (*db.DB).DeleteVersion, (*db.DB).Delete assume dbInv(s.db) && s.db.kv.path == old(s.db.kv.path)
+//@   interference at WriteGen, doBackup writers (*db.DB).Put, (*db.DB).Activate, (*db.DB).DeleteVersion, (*db.DB).Delete linking s.db assume dbInv(s.db) && s.db.kv.path == old(s.db.kv.path)
 //@   ensures [C17 loop.terminates-only-on-cancel] chanFired(doneChan(ctx))
 //@   at call doBackup: assert [C17 loop.change-driven] call_WriteGen != lastWriteGen
 //@   at call doBackup: assert [C17 loop.rate] uploadAttempts == old(uploadAttempts) || clock >= lastAttemptAt + 60000000000
